@@ -30,6 +30,9 @@ trace <i> SCRIPT :: <sys>…        -> <i> trace <accept|reject@pos> <match|expe
                                                  failed rename, unlink of the temp file, D = dest touched)
 kill <i> <syscall>:<N> SCRIPT :: <same|L:FNV>   -> <i> kill <ok|BAD>   (destination observed after SIGKILL on
                                                   entry to the N-th such syscall on the two paths)
+par <i> <N> <0|1> SCRIPT :: SCRIPT :: …     -> <i> | ret .. dest .. tmp .. | …   (async pulls run concurrently on a
+                                     runtime with N blocking threads, through one shared client or one each)
+cancel <i> <ms> SCRIPT :: <same|L:FNV>      -> <i> kill <ok|BAD>   (an async pull dropped by its caller after <ms>)
 seq <i> <old:H|none> SCRIPT :: SCRIPT :: …   -> <i> | ret .. dest <absent|L:FNV> tmp .. | …
                                      (one client, one destination: the state that outlives a call is the file
                                      system and whether an earlier step ran into a cut — then every call fails)
@@ -102,7 +105,16 @@ def parseScript (ws : List String) : Option (Parsed × List String) :=
   | pu :: co :: fm :: op :: ve :: tr :: de :: st :: dc :: wf :: "wire" :: rest =>
     let wireWs := rest.takeWhile (· ≠ "::")
     let after := (rest.dropWhile (· ≠ "::")).drop 1
-    match pullerOf ((pu.splitOn "@").headD ""), compOf co, allSome (wireWs.map respOf), decOf dc with
+    -- `@wl<N>`: the pulling WebSocket client refuses inbound frames over N bytes; a chunk response is a
+    -- 48-byte header, a 1-byte query and the body: the first oversized one ends the connection
+    let wl : Option Nat := ((pu.splitOn "@").filterMap fun x =>
+      if x.startsWith "wl" ∧ (x.drop 2).toString.isNat then some (natOf (x.drop 2).toString) else none).head?
+    let limitWire : Wire → Wire := fun w => match wl with
+      | none => w
+      | some n => w.map fun r => match r with
+        | .chunk b l => if 49 + b.length > n then .cut else .chunk b l
+        | r => r
+    match pullerOf ((pu.splitOn "@").headD ""), compOf co, (allSome (wireWs.map respOf)).map limitWire, decOf dc with
     | some p, some comp, some wire, some dec =>
       if (fm = "beve" ∨ fm = "raw") ∧ (op = "ok" ∨ op = "err" ∨ op = "cut") ∧ (ve = "ok" ∨ ve = "rej" ∨ ve = "panic" ∨ ve = "panics" ∨ ve = "panicv" ∨ ve = "slow")
           ∧ (de = "old" ∨ de = "none" ∨ de = "dir" ∨ de = "olds" ∨ de = "nones" ∨ de = "noparent" ∨ de = "symparent") ∧ tr.isNat ∧ (st = "-" ∨ st.isNat) ∧ (wf = "-" ∨ wf = "sync" ∨ wf.isNat ∨ ((wf.startsWith "d" ∨ wf.startsWith "p") ∧ (wf.drop 1).toString.isNat)) then
@@ -252,6 +264,20 @@ def step (st : Unit) (ws : List String) : Unit × String :=
         (st, joinSp [idx, "trace", acc, if same then "match" else "expected:" ++ ",".intercalate (want.map showSys)])
       | none => (st, idx ++ " bad-op")
     | none => (st, idx ++ " bad-op")
+  | "par" :: idx :: _bp :: _shared :: rest =>
+    -- concurrent pulls into different destinations: each as if alone (`pulls_do_not_interfere`)
+    match parseMany rest with
+    | some qs => (st, joinSp (idx :: qs.map fun q =>
+        let r := runOf q
+        let fs := runOps ⟨some [0], none⟩ r.ops
+        joinSp ["| ret", showRet r.ret, "dest", (if fs.dest = some [0] then "same" else match fs.dest with
+          | some c => digest c | none => "gone"), "tmp", if fs.tmp.isSome then "1" else "0"]))
+    | none => (st, idx ++ " bad-op")
+  | "cancel" :: idx :: _ms :: rest =>
+    -- a pull dropped by its caller: the destination is one of the states a kill can leave
+    match parseScript rest with
+    | some (q, [saw]) => (st, joinSp [idx, "kill", if (killStates q).contains saw then "ok" else "BAD"])
+    | _ => (st, idx ++ " bad-op")
   | "seq" :: idx :: init :: rest =>
     let fs0 : Option FS := if init = "none" then some ⟨none, none⟩
       else if init.startsWith "old:" then (bytesOfHex (init.drop 4).toString).map fun b => ⟨some b, none⟩
